@@ -91,7 +91,7 @@ Proof.
   assert (HL : 95 + 1 < 65536) by reflexivity.
   specialize (H HL).
   assert (H9 : 95 <> Common_BodyLength) by discriminate.
-  specialize (H H9 eq_refl eq_refl eq_refl eq_refl eq_refl eq_refl eq_refl eq_refl eq_refl eq_refl eq_refl eq_refl).
+  specialize (H H9 eq_refl eq_refl eq_refl eq_refl eq_refl eq_refl eq_refl eq_refl eq_refl eq_refl eq_refl).
   assert (E50 : 35 + lenN (field_tok 95 (itoa_N (lenN inst_content))) + lenN (field_tok (95 + 1) inst_content) = 49)
     by (vm_compute; reflexivity).
   rewrite E50 in H.
